@@ -120,6 +120,16 @@ def run_query(q):
         return {"values": [enc(a(s2py(xs))) for xs in q["xs"]], "eps_arcs": sum(1 for i, s, j, w in a.arcs() if s == EPSILON)}
     if op == "total_weight":
         return enc(mk_wfsa(q["m"], cls, flt).total_weight())
+    if op == "reverse_grow_trim":
+        # r = m.reverse; r is extended with further arcs / final states; then trimmed
+        a = mk_wfsa(q["m"], cls, flt)
+        r = a.reverse
+        for i, s_, j, w in q["extra_arcs"]:
+            r.add_arc(i, sym(s_), j, conv(w, flt))
+        for qq, w in q["extra_final"]:
+            r.add_F(qq, conv(w, flt))
+        b = r.trim
+        return {"values": [enc(b(s2py(xs))) for xs in q["xs"]], "machine": dump(b)}
     if op in ("push", "determinize", "min_det", "trim", "trim_vals"):
         a = mk_wfsa(q["m"], cls, flt)
         b = getattr(a, op)
@@ -300,8 +310,18 @@ def run_query(q):
             t.add_I(qq, conv(w, flt))
         for qq, w in q["t"]["final"]:
             t.add_F(qq, conv(w, flt))
-        for i, a, b, j, w in q["t"]["arcs"]:
+        arcs_ = q["t"]["arcs"]
+        late = int(q.get("grow", 0))
+        for i, a, b, j, w in arcs_[: len(arcs_) - late]:
             t.add_arc(i, (sym(a), osym(b)), j, conv(w, flt))
+        if late:
+            # a first composition with the incomplete machine, then the machine is completed and composed again
+            try:
+                _ = (cfg @ t) if q.get("order", "cfg@fst") == "cfg@fst" else (t.T @ cfg)
+            except Exception:  # noqa
+                pass
+            for i, a, b, j, w in arcs_[len(arcs_) - late:]:
+                t.add_arc(i, (sym(a), osym(b)), j, conv(w, flt))
         h = (cfg @ t) if q.get("order", "cfg@fst") == "cfg@fst" else (t.T @ cfg)
         then = q.get("then")
         if then is None:
